@@ -24,6 +24,7 @@ from props import c07
 from props.c07 import enc, dec, cfg_tokens, canon_point, get_parser, local_zone
 
 PROP = "C08"
+QUICK_BOOST = 2
 LEAN_MODULES = ["IsoDT.Props.C08", "IsoDT.Props.C08b"]
 TRUSTED_EXTRA = c07.TRUSTED_EXTRA
 RULE = ("points in all three representations x whole-second / decimal hour, minute, second forms (1-6 "
